@@ -224,13 +224,17 @@ where
 {
     type Stream = Self;
 
-    fn into_parts(self) -> (Vector<VectorDiffContainerStreamElement<S>>, Self::Stream) {
+    fn into_parts(mut self) -> (Vector<VectorDiffContainerStreamElement<S>>, Self::Stream) {
         // Hand out the current view, not the whole buffer. Without a count, the view
         // is empty.
         let values = match self.count {
             Some(count) => self.buffered_vector.clone().skeep(count),
             None => Vector::new(),
         };
+
+        // Diffs that were computed but not handed out yet are already part of
+        // `values`; they must not be emitted on top of them.
+        self.ready_values = Default::default();
 
         (values, self)
     }
